@@ -96,6 +96,15 @@ def gen_workload(w, families=("json", "json", "json", "yaml", "xml", "xml", "csv
     rel = w.random()
     if fam in ("json", "yaml", "plist"):
         shape = w.random()
+        if w.random() < 0.0015 and fam == "json":
+            # a cheap but LARGE-COST pair: hundreds of long strings removed from (or inserted into) a list, so that the
+            # accumulated cost passes 2**16 while the Levenshtein matrix stays one row (or column) wide
+            n = w.choice([340, 420, 700])
+            ln = w.choice([200, 170, 100]) if n < 700 else 100
+            big = [f"{i:04d}" + "q" * ln for i in range(n)]
+            keep = w.choice([[], big[:1], big[-1:], [big[0], big[-1]]])
+            a, b = (big, keep) if w.random() < 0.7 else (keep, big)
+            return {"family": fam, "a": a, "b": b, "opts": opts}
         if shape < 0.2 and fam != "plist":
             a, b = gen.gen_renamed_dicts(w)      # the matcher has to pair renamed keys; near-ties between pairings
             return {"family": fam, "a": a, "b": b, "opts": dict(opts, allow_key_edits=True)}
